@@ -113,6 +113,7 @@ func c09http(c *run.Ctx) {
 			{"basic-unknown-client", world.Basic("ghost", "secret-of-b"), "", 0},
 			{"basic-other-clients-secret", world.Basic("conf-b", "secret-of-a"), "", 0},
 			{"basic-public-client", world.Basic("pub-c", ""), "", -1},
+			{"basic-public-client-with-a-made-up-secret", world.Basic("pub-c", "anything-at-all"), "", 0},
 			{"post-credentials-only", world.Post("conf-b", "secret-of-b"), "", -1},
 			{"none", world.Auth{Mode: "none"}, "", 0},
 			{"bearer-active", world.Auth{}, bearerOK, 1},
